@@ -417,7 +417,7 @@ def gcc_guard(ctx, items, obs, only=None):
             if obs[(k, a)]["status"] == "ok" and (only is None or (k, a) in only):
                 want.setdefault(k, set()).add(a)
     sel = sorted(want)
-    with ThreadPoolExecutor(max_workers=6) as ex:
+    with ThreadPoolExecutor(max_workers=8) as ex:
         outs = list(ex.map(lambda k: gcc_outputs(items[k], ctx.workdir, want[k]), sel))
     verdict = {}
     for k, o in zip(sel, outs):
@@ -756,9 +756,12 @@ class Engine:
             batch = items[bi:bi + batch_size]
             obs = run_src(ctx, batch, "Src executions (%s %d)" % (name, bi // batch_size))
             res, bad = judge(ctx, batch, obs, "Src vs IR (%s %d)" % (name, bi // batch_size))
-            guard = {}
-            if bad or ctx.tier == "thorough":
-                guard = gcc_guard(ctx, batch, obs, None if ctx.tier == "thorough" else set(bad))
+            # reference guard: every disagreement; in the thorough tier also every random program and every
+            # fourth probe, whether or not ppci agrees with Src.tla (cross-validation of the specification)
+            only = set(bad)
+            if ctx.tier == "thorough":
+                only |= {(k, a) for k, it in enumerate(batch) if name == "random" or k % 4 == 0 for a in range(len(it["vecs"]))}
+            guard = gcc_guard(ctx, batch, obs, only) if only else {}
             failing |= self.account(ctx, batch, obs, bad, guard, stat)
         return failing
 
